@@ -309,6 +309,10 @@ func (c *Ctx) ringSideOwnership() {
 		c.R.Unresolved("monitor type service.buffer")
 		return
 	}
+	// the goroutines the sides belong to must be known, otherwise nothing can be said about who may use a side
+	if !c.Need("receiver", r.Receiver, "sender", r.Sender, "processor", r.Processor) {
+		return
+	}
 	side := func(callee *ssa.Function) string {
 		p, cns := buf.Role["pcond"][callee], buf.Role["ccond"][callee]
 		switch {
